@@ -19,6 +19,42 @@ CHECKS = {
  'C04': dict(tech='Lean 4 proof about the History model (append-only, frame, store_best_only) + record correspondence on recorded runs',
              text='Theorems dump1_appends, dump1_frame, dump1_prefix, dump_prefix, dump1_store_best_only, dump_series_length/skipped/values (exactly one record per kept key per iteration, earlier records never move). Tie: regenerated HISTORY_KEYS and dumped keys; every record of every returned History compared value for value with the live state snapshotted at dump time, prefix stability at every dump, write-through test after return.',
              note='wall clock non-decreasing (K11)', ref='5/C04'),
+ 'C05': dict(tech='Lean 4 proof (effect-DSL non-interference, by induction on programs) + two-run differential and entropy audit',
+             text='Theorems run_ambient_irrelevant, run_depends_only_on_consumed, run_rng_position, run_consumes, run_deterministic_in_seed over every program of the effect signature {uniform, normal, choice, clock, objective, hook}: results depend on the world only through the consumed stream. Tie: every optimiser x space kind run twice from scratch (different PYTHONHASHSEED, unrelated preceding workload) must give bit-identical digests, seed+1 must differ, and taps on random.*, os.urandom, np.random.default_rng/RandomState find no other entropy source.',
+             note='partial: the theorem is structural; that each optimiser is such a program is established by the differential test, not by proof', ref='5/C05'),
+ 'C06': dict(tech='Lean 4 proof over integer keys of doubles (omega + induction over rows) + bit-exact correspondence of check_limits + regenerated size/bound guards',
+             text='Theorems clip_mem/fixed/low/high/idem/nearest, clipPos_inBox/fixed/idem/entry/shape, clipAll_*, clipHyper_*, initSearch_feasible, initHyper_feasible for every position (all non-NaN doubles incl. +-inf through the order-isomorphic key embedding). Tie: Agent/SearchSpace/HyperSpace.check_limits compared bit-exactly with the model on generated positions (bounds, +-1 ulp, far, +-inf), projection and idempotence oracles on the real code, constructors, typed rejections; guard table regenerated.',
+             note='lb <= ub; NaN excluded; np.clip = min(max(x, lb), ub) modelled', ref='5/C06'),
+ 'C08': dict(tech='Lean 4 proof (well-formedness invariant of grow / deepcopy / mutate / cross by structural induction) + exhaustive-to-depth-2 correspondence of the real operators + forest check in GP runs',
+             text='Theorems grow_wf, grow_ids_fresh, grow_disjoint, grow_depth_le, grow_terminals, grow_consumes, grow_total, shift_wf, shift_disjoint, setChild_wf, mutate_wf, cross_wf, cross_disjoint, findNode_slot_child_ne_nil for every tree, point, draw list and depth. Tie: TreeSpace.grow, GP._mutate, GP._cross under scripted draws compared with the model (canonical forms) exhaustively over all pairs of parent shapes to depth 2 and all point pairs; Python well-formedness oracle; whole forests at every record of GP runs; N_ARGS_FUNCTION regenerated.',
+             note='copy.deepcopy trusted to produce a disjoint copy (modelled as identity shift); population-level selection is an oracle value', ref='5/C08'),
+ 'C09': dict(tech='Lean 4 proof (slot-exchange / slot-replacement / overwrite-worst specifications) + exhaustive-to-depth-2 correspondence of the real operators',
+             text='Theorems cross_spec, cross_spec_slots, cross_no_slot, cross_multiset, cross_frame, mutate_spec(_slot), mutate_no_slot, mutate_multiset, mutate_frame, setChild_childOf_other, argmaxFirst_spec, reproStep_spec, reproduction_paired, reproduction_k_worst_of_pos, reproduction_worst_first; negation reproduction_negative_repeats (K12). Tie: real _cross/_mutate/_reproduction vs the model on every pair of parent shapes to depth 2 x every point pair, every mutation point, scripted tournament outcomes; definition oracles (exact slot exchange, parents untouched, multiset conserved, pairing, deep copies).',
+             note='reproduction: "k worst" needs positive fitness (K12 recorded)', ref='5/C09'),
+ 'C10': dict(tech='Lean 4 proof (totality, shape, per-operator unfolding, protection lemmas over the reals) + per-node Float-twin correspondence',
+             text='Theorems evalTree_total, evalTree_shape, evalTree_<op> for all ten operators (operand order explicit), evalTree_shift, evalTree_links_irrelevant; sqrt_abs_defined, log_abs_eps_pos, div_defined_iff. Tie: every function node of every tree compared per node with the model operator applied to the children\'s reported values (bit-exact for + - * / abs sqrt, <= 4 ulp for exp log sin cos), exhaustive over shapes x operator labellings to depth 2, sampled to depth 3; independent NumPy reference; tree unchanged by evaluation; EPSILON and operator table regenerated.',
+             note='formula agreement is a correspondence at sampled terminal values; libm rounding within 4 ulp', ref='5/C10'),
+ 'C11': dict(tech='Lean 4 proof (the code\'s stack / one-stack / BFS loops equal the recursive definitions, for every tree) + exhaustive-to-depth-3 correspondence',
+             text='Theorems preOrder_eq_pre, postOrder_eq_post, pre_nodup, post_perm_pre, properties_eq, findNode_terminal, findNode_function, findNode_function_under_root, findNode_out_of_range, findNode_zero_function_root (no depth bound). Tie: real pre_order/post_order/measurements/find_node vs the model on all 183 shapes to depth 3 and every index 0..n+1, grown trees of random function sets, depth-4 samples; recursive Python reference.',
+             note='distinct node objects (post_order uses an identity test)', ref='5/C11'),
+ 'C13': dict(tech='Lean 4 proof over the reals (span range, end points, monotone in the norm) + bit-exact Float-twin correspondence',
+             text='Theorems norm_le_sqrt_d, spanRow_mem, spanRow_zeros, spanRow_ones, spanRow_depends_on_norm, spanRow_mono_norm, span_mem, clipHyper_inUnitBox. Tie: the same span definition at Float vs hypercomplex.span bit-exactly (v,d <= 7), float-level range oracle with a 2-ulp allowance, HyperSpace unit-box check.',
+             note='partial for rounding: K7 (span(ones) can exceed ub by an ulp) recorded', ref='5/C13'),
+ 'C14': dict(tech='Lean 4 proof (soundness of the guard/domain matcher for every value) + guard table regenerated from all setters and decided by kernel evaluation + setter correspondence on boundary values',
+             text='Theorems agree_sound (guard rejects iff value outside the documented domain, all rationals / +-inf / type tags), accepts_iff_all_domains, setAttr_atomic, nan_accepted; regenerated obligation guard_mismatches: the guards whose condition does not match their message are exactly the recorded ones (decide +kernel over all 129 guards). Tie: every real setter driven with bounds, +-1 step, wrong types, companions at equality and compared with the model setter and the documented domain; atomicity; constructor dictionaries.',
+             note='K9 (NaN), K10a-c recorded; Python/NumPy exceptions raised inside guard expressions are outside the model universe', ref='5/C14'),
+ 'C16': dict(tech='Lean 4 proof (fold = weighted sum over any semiring) + bit-exact correspondence + call-log oracle',
+             text='Theorems weighted_eq_sum, weighted_eq_sum_generic, weighted_all_components, weighted_component, weighted_cons/nil. Tie: WeightedFunction.pointer with recording components vs the Float fold bit-exactly; each component called exactly once in order on the unmodified argument; all 17 optimisers run with a WeightedFunction objective.',
+             note='single-argument components; equally long lists', ref='5/C16'),
+ 'C17': dict(tech='Lean 4 proof over the reals (closed forms, lower bounds, values at minimisers; incoherent documented minima refuted) + Float-twin correspondence at sampled points',
+             text='53 theorems: <fn>_closed_form for all 17 functions, <fn>_lower_bound and <fn>_at_minimiser for the 12 with coherent documented minima, <fn>_documented_minimum_incoherent for cosine_mixture, styblinski_tang, alpine2, csendes. Tie: library function vs Float instance (1e-9 relative) and vs an independent scalar transcription at minimisers, corners, axis and random points, n = 1..7; documented-minimum oracle.',
+             note='formula agreement is a correspondence at sampled points; schwefel/deb2 minima excluded (rounded constant / undefined on half the box)', ref='5/C17'),
+ 'C18': dict(tech='Lean 4 proof (tournament/pairwise/Bernoulli over keys; affine maps, Levy parity, index draws over the reals) + twin-generator correspondence',
+             text='Theorems tournament_length/spec/total, pairwise_join/chunks/get, bernoulli_values/mono/zero/one, uniformAffine_mem, normalAffine_affine, levyStep_eq/odd_u/even_v/defined, index_draw_range. Tie: wrappers under a seeded generator vs the model applied to an identically seeded twin (uniform/normal bit-exact, Bernoulli/tournament/pairwise exact, Levy 1e-9) with contract oracles.',
+             note='NumPy generators trusted to be the documented affine maps', ref='5/C18'),
+ 'C19': dict(tech='Lean 4 proof (get = path + hstack on the discovered shape; load after save) + correspondence on histories of real runs',
+             text='Theorems get_type_error, get_size_error, get_ok, get_series_order, hstack_rows, shapeOf_agents_record, shapeOf_best_record, get_best_fitness_series, load_after_save, get_after_load. Tie: History.get on histories of every optimiser, every key and valid index tuple, wrong-type/size indices, vs the model and the definition; save/load round trips.',
+             note='pickle trusted; NumPy shape discovery of ragged records modelled', ref='5/C19'),
  'C07': dict(tech='Lean 4 proof (population length and storage identities preserved by every machine event) + run-level refinement check',
              text='Theorems apply_pop_length, run_pop_length, sweep_refs, sweep_pop_refs, trialSwap_refs, best_changes_only_in_sweep_or_swap. Tie: machine replay compares storage identities of every agent and the best at every tap; live np.shares_memory over all pairs at every hook and at return; write-through test.',
              note='observer hooks; identities observed through ndarray base objects', ref='5/C07'),
